@@ -385,20 +385,23 @@ fn gen_sched(prop: &str, case: &mut Case, w: &mut Rng, k: &mut Rng, knobs: &mut 
                     }
                 }
                 "C08" => {
-                    if x < 50 {
+                    if x < 42 {
                         let cnt = 1 + w.usize(5);
                         Stmt::Insert {
                             table: t,
                             cols: vec![],
                             rows: fresh_rows(w, &mut next, cnt),
                         }
-                    } else if x < 90 {
+                    } else if x < 76 {
                         Stmt::Delete {
                             table: t,
                             pred: del_pred(w, next),
                         }
-                    } else {
+                    } else if x < 84 {
                         Stmt::DropTable { name: t }
+                    } else {
+                        // a reader at SQL level: the whole statement is one scan
+                        Stmt::Select(Query::star(&t))
                     }
                 }
                 _ => {
